@@ -436,6 +436,23 @@ class Emitter:
             # R12: `for x in E.iter().skip(K) { B }`        -> `let mut index_k: usize = K; while index_k < E.len() { let x = &E[index_k]; B  index_k += 1; }`
             #      `for x in E.iter().skip(K).rev() { B }`  -> `let mut index_k: usize = E.len(); while index_k > K { index_k -= 1; let x = &E[index_k]; B }`
             ms = re.match(r'for\s+(\w+)\s+in\s+(.+?)\.iter\(\)\s*\.skip\((.+?)\)\s*(\.rev\(\)\s*)?$', header.strip(), re.S)
+            me = re.match(r'for\s*\(\s*(\w+)\s*,\s*(\w+)\s*\)\s+in\s+(.+?)\.iter\(\)\s*\.skip\((.+?)\)\s*\.enumerate\(\)\s*(\.rev\(\)\s*)?$', header.strip(), re.S)
+            if me:
+                # R12 (enumerated): `for (o, x) in E.iter().skip(K).enumerate() { B }`
+                #     -> `let mut o: usize = 0; while o < E.len() - K (K < E.len()) { let x = &E[K + o]; B  o += 1; }`
+                # `.enumerate().rev()` counts o down from E.len() - K (exclusive) to 0
+                o, x, e, sk, rev = me.group(1), me.group(2), ' '.join(me.group(3).split()), ' '.join(me.group(4).split()), me.group(5)
+                close = match_close(masked, br)
+                if re.search(r'\bcontinue\b', masked[br + 1:close]):
+                    raise ExtractError('%s: loop %d contains `continue` (R12 not applicable)' % (fnid, k))
+                if rev:
+                    new = ('let mut %s: usize = if %s.len() > %s { %s.len() - %s } else { 0 };\n    while %s > 0 {\n        %s -= 1;\n        let %s = &%s[%s + %s];'
+                           % (o, e, sk, e, sk, o, o, x, e, sk, o) + body[br + 1:close].rstrip() + '\n    }')
+                else:
+                    new = ('let mut %s: usize = 0;\n    while %s < %s.len() && %s < %s.len() - %s {\n        let %s = &%s[%s + %s];'
+                           % (o, sk, e, o, e, sk, x, e, sk, o) + body[br + 1:close].rstrip() + '\n        %s += 1;\n    }' % o)
+                self.rules.add('R12')
+                return body[:kw] + new + body[close + 1:]
             if ms:
                 x, e, sk, rev = ms.group(1), ' '.join(ms.group(2).split()), ' '.join(ms.group(3).split()), ms.group(4)
                 close = match_close(masked, br)
